@@ -176,6 +176,11 @@ class TransformedTargetForecaster(
         self.check_is_fitted()
         self._update_y_X(y, X)
 
+        # nothing to do for empty data (as in _update_y_X); the transformers
+        # reject an empty series
+        if len(y) == 0:
+            return self
+
         yt = y
         for step_idx, name, transformer in self._iter_transformers():
             if hasattr(transformer, "update"):
